@@ -655,11 +655,14 @@ def main():
     ck = Check(PID)
     for f in ([] if ck.replay else os.listdir(ck.replay_dir)):          # replays of earlier runs would be mistaken for results of this one
         if f.startswith(("viol_", "case_")): os.remove(os.path.join(ck.replay_dir, f))
-    ck.trusted = DEFAULT_TRUSTED + ["Coq standard library Reals (axioms ClassicalDedekindReals.sig_forall_dec, ClassicalDedekindReals.sig_not_dec, FunctionalExtensionality.functional_extensionality_dep) for the theorems over R; no other axiom",
+    ck.trusted = DEFAULT_TRUSTED + ["Coq standard library Reals (axioms ClassicalDedekindReals.sig_forall_dec, ClassicalDedekindReals.sig_not_dec, FunctionalExtensionality.functional_extensionality_dep) for the theorems over R; Classical_Prop.classic in addition for the four binary64 witness theorems C05_normalized_*binary64* (Flocq 4.1.0 operations); no other axiom",
                                     "the OCaml driver parses the kernel expression and composes the extracted combinators (no arithmetic of its own); exact runs use Coq's extracted Qc operations, float runs OCaml doubles with libm sqrt/exp",
                                     "finite differences (five-point stencil, h = 2^-10) inside the harness are built from the kernels' own single evaluations"]
     ck.assumptions = ["inputs of one kernel call have equal dimension; PolynomialKernel offset >= 0, ScaledKernel factor > 0, WeightedSumKernel weights exp(.) > 0, DiscreteKernel table symmetric positive semi-definite (generated as A*A^T)",
                       "NormalizedKernel: base kernel value k(x,x) > 0 on every generated point",
+                      "magnitude stream: scales are chosen from a structural bound (growth degree, magnitude bits) of the expression so that every mathematically correct intermediate is a normal double; where the true value of a "
+                      "scaled quantity is not a normal double the scaling relation is not demanded; Gaussian/ARD values that underflow to 0 are accepted; the bit-for-bit comparison of C05Norm assumes IEEE double division, multiplication and sqrt in both g++ (SSE2) and OCaml",
+                      "the binary64 witnesses (C05_normalized_*_binary64_*) are evaluated with Flocq's operations inside Coq; they rest on the standard real-number axioms and Classical_Prop.classic (used by Flocq's proofs)",
                       "GaussianTaskKernel/MultiTaskKernel (T cases): the model's table is computeMatrix() on a cleared matrix, summation order of the mean embeddings differs from the C++ loop (compared at 1e-11); setGamma()/setWidth() (no recomputation of the table) are not exercised",
                       "the theorems stated over Coq's real numbers (C05_real_ordered_field_instance, C05_psd_exponentiated_inner_product, C05_psd_gaussian, C05_psd_gaussian_quadratic_forms, C05_psd_ard, C05_limit_features_*, "
                       "C05_limit_closure_*, C05_psd_expression, C05_psd_expression_point_set, C05_psd_gaussian_task_kernel, C05_psd_multi_task_kernel, C05_psd_multi_task_kernel_expression) instantiate the model with "
@@ -794,6 +797,7 @@ def main():
     ck.cov["distinct_nontrivial"] = len(nontriv)
     ck.cov["rule"] = ("random kernel expressions (depth <= 3 over Linear, Polynomial, Monomial, GaussianRbf, ARD, Normalized, Scaled, WeightedSum, Product, Subrange, Model(LinearModel); dense and sparse inputs; "
                       "DiscreteKernel, PointSetKernel, MklKernel, GaussianTaskKernel/MultiTaskKernel cases) on 1..5 x 1..4 points of dimension 1..4 with small integer/dyadic coordinates incl. duplicates, axis vectors, zero vectors, random batch partitions and regularisers; "
+                      "magnitude stream: 150 more expressions (polynomial degree up to 8; half with NormalizedKernel at the root) on integer inputs at three scales 2^0, 2^e, 2^-e' with e * (growth degree of the expression) in 500..940; "
                       "non-trivial = at least 2 points on both sides and a composed kernel (or a non-vector kernel); distinct = distinct case strings")
     ck.cov["samples"] = cases[:2] + cases[-1:]
     cls_count = {}
